@@ -535,6 +535,7 @@ def canary_spec(spec):
 
 class Extractor:
     def __init__(self, repo, overlay=None):
+        self._notes = []
         self.repo = repo
         self.overlay = overlay or {}
         self.files = {}
@@ -843,7 +844,10 @@ class Extractor:
                 k += 1
             for n, (sig, text) in fs.closures.items():
                 if n > len(heads):
-                    raise Undecided('lost anchor: closure %d of %s' % (n, where))
+                    # the closure this contract was written for is gone: the body is verified without it (a callee
+                    # that needed what the closure's context provided will then fail its precondition)
+                    self._notes.append('closure %d of %s not present in the working tree: its contract is not spliced' % (n, where))
+                    continue
                 k = heads[n - 1]
                 if toks[k].text == '||':
                     pe = k
@@ -1097,6 +1101,7 @@ class Extractor:
 
     def run(self, vspec_path, canary=False):
         self._canary = canary
+        self._notes = []
         unit, nodes = parse_vspec(vspec_path)
         out = Out()
         res = Result()
@@ -1185,6 +1190,7 @@ class Extractor:
             out.add('pub uninterp spec fn canary__%d() -> bool;' % n)
         out.add('} // verus!')
         out.add('fn main() {}')
+        res.drops += self._notes
         res.text = out.text()
         res.labels = out.labels
         res.fnspans = res.fnspans
